@@ -106,13 +106,18 @@ fn stdins() -> Vec<(&'static str, Vec<u8>)> {
 }
 
 /// --features spellings: (arguments, the feature list the library is to receive)
-const FEATS: [(&[&str], Option<&[&str]>); 6] = [
+const FEATS: [(&[&str], Option<&[&str]>); 9] = [
   (&[], None),
   (&["-f", "alpha"], Some(&["alpha"])),
   (&["--features", "beta"], Some(&["beta"])),
   (&["-f", "alpha,beta"], Some(&["alpha", "beta"])),
   (&["-f", "alpha", "-f", "beta"], Some(&["alpha", "beta"])),
   (&["--features=gamma,alpha"], Some(&["gamma", "alpha"])),
+  // a list that holds only empty names is still a list: every named feature is disabled (spellings 6.. are
+  // swept for the feature-guarded schemas only)
+  (&["-f", ""], Some(&[""])),
+  (&["--features", ","], Some(&["", ""])),
+  (&["-f", "beta,"], Some(&["beta", ""])),
 ];
 
 #[derive(Clone, Debug)]
@@ -383,6 +388,9 @@ fn invocations(tier: Tier, ndocs: usize, nstdin: usize, docs: &[(Route, &'static
   let has_csv = |s: &[usize]| s.iter().any(|&d| docs[d].0 == Route::Csv);
   for schema in 0..SCHEMAS.len() {
     for feat in 0..FEATS.len() {
+      if feat >= 6 && !matches!(schema, 1 | 5) {
+        continue;
+      }
       // A. the whole menu in one run, no --ci: every (schema, features, document) verdict and every stdin content
       for stdin in std::iter::once(None).chain((0..nstdin).map(Some)) {
         out.push(Inv { schema, feat, ci: false, header: false, comma: true, docs: all.clone(), stdin });
@@ -408,7 +416,7 @@ fn invocations(tier: Tier, ndocs: usize, nstdin: usize, docs: &[(Route, &'static
     Tier::Quick => vec![(small.clone(), vec![1], vec![0, 3], vec![None, Some(1)])],
     Tier::Thorough => vec![
       // every pair of the whole menu, every schema and spelling, stdin absent
-      (all.clone(), (0..SCHEMAS.len()).collect(), (0..FEATS.len()).collect(), vec![None]),
+      (all.clone(), (0..SCHEMAS.len()).collect(), (0..6).collect(), vec![None]),
       // every pair of the small menu with every stdin content, feature-guarded schemas
       (small.clone(), vec![1, 5], (0..FEATS.len()).collect(), every_stdin[1..].to_vec()),
     ],
